@@ -9,7 +9,7 @@ args = sys.argv[1:]
 lanes = 4
 if args[:1] == ["--lanes"]:
     lanes = int(args[1]); args = args[2:]
-EXTRA = {"C06_2": ["C07"], "C11_2": ["C12"], "C12_3": ["C04"]}      # neighbouring checks that also see the change
+EXTRA = {"C06_2": ["C07"], "C11_2": ["C12"], "C12_3": ["C04"], "C06_6": ["C18"], "C08_7": ["C06"], "C13_5": ["C17"]}      # neighbouring checks that also see the change
 resf = "/verif/seeded/RESULTS.json"
 results = json.load(open(resf)) if os.path.exists(resf) else {}
 lock = threading.Lock()
